@@ -14,6 +14,12 @@ def jobs(ctx):
     out.append(Job(REL, PKG, HK, "VerifC20Builder", {"k": 2, "empty": 1, "endempty": 1}, tag="builder: empty node at end of input", cost=5,
                    only_kf="empty-node-at-end-of-input", kf_ids=["exactly-the-reported-nodes", "every-reported-node-is-in-the-tree"]))
     out.append(Job(REL, PKG, HK, "VerifC20Builder", {"k": 2, "empty": 0, "endempty": 0}, tag="builder twin", twin=True))
+    # the shipped tm parser with its TokenStream and error recovery on grammar texts with 1 (2) bytes chosen by the solver
+    FLT = ["-looplimit", "1000000", "-conccap", "300", "-maxpaths", "400000"]
+    for t in range(4):
+        for k in (1,) if q else (1, 2):
+            out.append(Job(REL, PKG, "c20_tmfront.go", "VerifC20TmEvents", {"tmpl": t, "k": k, "conc": 1}, flags=FLT, tag="tm front end with recovery tmpl=%d k=%d" % (t, k), cost=3.0 * 128 ** (k - 1)))
+    out.append(Job(REL, PKG, "c20_tmfront.go", "VerifC20TmEvents", {"tmpl": 0, "k": 1, "conc": 1}, flags=FLT, tag="tm front end twin", twin=True))
     # event streams of real generated parsers (with recovery; plain and fixWhitespace): the nesting assertions live in the C19 harness
     saved = C19.RG
     sub = C19.jobs(type("T", (), {"tier": "thorough" if not q else "quick", "scratch": ctx.scratch, "problems": ctx.problems, "notes": ctx.notes})())
@@ -24,12 +30,15 @@ def jobs(ctx):
 def describe(ctx):
     return {
         "explanation": "(1) ast.builder.addNode/build (shipped tm instance of go_ast_parse.go.tmpl) on a symbolic event stream: k events whose offsets are solver variables, "
-                       "assumed well nested and reported left to right with containers after contents; the tree must contain exactly the k reported nodes plus the file node, every "
+                       "assumed well nested (disjoint nodes in any order) with containers after contents; the tree must contain exactly the k reported nodes plus the file node, every "
                        "child inside its parent, siblings in source order and disjoint, every node attached to its smallest container (the first later event containing it). "
                        "(2) the event streams of real generated parsers with error recovery (C19 corpus) on symbolic token arrays: nodes inside the input, pairwise "
-                       "disjoint or nested, containers after contents, for valid and invalid inputs.",
+                       "disjoint or nested, containers after contents, for valid and invalid inputs. (3) the shipped tm parser with its TokenStream, error recovery and the tree builder on four "
+                       "grammar texts (with and without a syntax error around the hole) in which 1 (thorough 2) ASCII bytes are free: same event-stream assertions, and the built tree has "
+                       "exactly the reported nodes, children inside parents, siblings in order. In (3) the byte values are enumerated by the executor through solver concretisation "
+                       "(every run is concrete afterwards: the lexer's table lookups on a symbolic byte cost thousands of queries for the same 128 cases).",
         "bounds": {"builder": "k<=5 (6) non-empty nodes, k<=4 (5) with empty nodes, offsets in [0,8]", "event streams": "as C19: n<=5 quick / 7 thorough"},
-        "outside": ["empty nodes sitting exactly on a boundary of another node (their parent is not determined by the statement)", "shipped js/json/test parsers with real lexers", "TokenStream-based parsers"],
+        "outside": ["empty nodes sitting exactly on a boundary of another node (their parent is not determined by the statement)", "shipped js/json/test parsers with real lexers (incl. the hand-written parsers/js/parser_impl.go)", "tm texts beyond the four templates"],
         "trusted": ["go/ssa", "symgo executor", "z3"],
-        "assumptions": ["disjoint nodes are reported left to right (reductions and token flushes happen in source order)"],
+        "assumptions": [],
     }
